@@ -8,6 +8,7 @@
 mod out;
 mod rng;
 mod suite_c;
+mod suite_p;
 mod suite_t;
 
 use std::path::PathBuf;
@@ -35,6 +36,7 @@ fn main() {
             let lines = match suite.as_str() {
                 "T" => suite_t::gen(&mut rng, &suite_t::Params { cases, max_ops }),
                 "C" => suite_c::gen(&mut rng, &suite_c::Params { cases }),
+                "P" => suite_p::gen(&mut rng, &suite_p::Params { cases, big: max_ops }),
                 _ => {
                     eprintln!("unknown suite {}", suite);
                     std::process::exit(2);
@@ -55,6 +57,7 @@ fn main() {
             match suite.as_str() {
                 "T" => suite_t::exec(&lines, &mut out, &scratch),
                 "C" => suite_c::exec(&lines, &mut out),
+                "P" => suite_p::exec(&lines, &mut out),
                 _ => {
                     eprintln!("unknown suite {}", suite);
                     std::process::exit(2);
